@@ -113,7 +113,7 @@ def run(rec, tier, seed):
     if tier == 'quick':
         reps = reps[:5] + [(2, 2, 2)]
     for cell in CELLS:
-        for n in (1, 3, 4):
+        for n in (1, 3, 4, 6):        # (6 atoms: the bond list is not in lexicographic order and its types differ)
             for (terms, coeffs, extra, kinds) in ((True, True, True, None), (True, False, False, None), (False, True, False, None), (True, True, False, ['improper']), (True, False, True, ['dihedral', 'improper'])):
                 for r in reps:
                     spec = dict(cell=cell, n=n, seed=seed + n, terms=terms, coeffs=coeffs, extra=extra, kinds=kinds, reps=list(r))
